@@ -6,8 +6,18 @@ use std::io::Cursor;
 const CAP: usize = 32;
 
 fn wf(n: usize, cols: usize, size: usize, max_size: usize, len: usize) -> bool {
-    let p = |s: usize| (n as u128) * (cols as u128) * (s as u128) * 8u128;
-    size <= max_size && p(max_size) <= len as u128
+    // n*cols*max_size*8 <= len, evaluated without overflow (len is a small buffer length)
+    let fits = |s: usize| -> bool {
+        let a = (n as u128) * (cols as u128);
+        if a == 0 || s == 0 {
+            return true;
+        }
+        if a > len as u128 || s > len {
+            return false;
+        }
+        a * (s as u128) * 8 <= len as u128
+    };
+    size <= max_size && fits(max_size)
 }
 
 fn le64(b: &[u8], k: usize) -> u64 {
